@@ -55,3 +55,116 @@ fn c14_decode_matches_std() {
         }
     });
 }
+
+fn err_span(e: &LexError) -> SpanId {
+    match e {
+        LexError::InvalidChar { span, .. }
+        | LexError::InvalidUtf8 { span, .. }
+        | LexError::UnfinishedMultilineComment { span }
+        | LexError::LeadingZeroInNumber { span }
+        | LexError::MissingFracDigits { span }
+        | LexError::MissingExpDigits { span }
+        | LexError::MissingDigitAfterUnderscore { span }
+        | LexError::ExpOverflow { span }
+        | LexError::InvalidEscapeInString { span, .. }
+        | LexError::IncompleteUnicodeEscape { span }
+        | LexError::InvalidUtf16EscapeSequence { span, .. }
+        | LexError::UnfinishedString { span }
+        | LexError::MissingLineBreakAfterTextBlockStart { span }
+        | LexError::MissingWhitespaceTextBlockStart { span }
+        | LexError::InvalidTextBlockTermination { span } => *span,
+    }
+}
+
+/// Lexes `input` to the end (at most `input.len() + 1` tokens) and checks the tiling contract.
+fn check_tiling(input: &[u8]) {
+    let n = input.len();
+    let arena = Arena::new();
+    let ast_arena = Arena::new();
+    let str_interner = StrInterner::new();
+    let mut span_mgr = SpanManager::new();
+    let (span_ctx, _) = span_mgr.insert_source_context(n);
+    let mut lexer = Lexer::new(&arena, &ast_arena, &str_interner, &mut span_mgr, span_ctx, input);
+    let mut pos = 0usize;
+    let mut k = 0;
+    let mut finished = false;
+    while k <= n {
+        if !finished {
+            match lexer.next_token() {
+                Ok(tok) => {
+                    let (ctx, s, e) = lexer.span_mgr.get_span(tok.span);
+                    assert!(ctx == span_ctx, "token span names the file being lexed");
+                    assert!(s == pos, "a token starts where the previous one ended (tiling)");
+                    assert!(lexer.start_pos == lexer.end_pos && lexer.end_pos == e, "the lexer continues right after the token");
+                    if tok.kind == TokenKind::EndOfFile {
+                        assert!(s == n && e == n, "end-of-file token sits at the end of the input");
+                        finished = true;
+                        kani::cover!(k >= 2, "end of file after two tokens");
+                    } else {
+                        assert!(e > s && e <= n, "a token is non-empty and inside the input");
+                        kani::cover!(matches!(tok.kind, TokenKind::Whitespace | TokenKind::Comment), "whitespace or comment token");
+                    }
+                    pos = e;
+                }
+                Err(err) => {
+                    let (ctx, s, e) = lexer.span_mgr.get_span(err_span(&err));
+                    assert!(ctx == span_ctx && s <= e && e <= n, "a lexical error is located inside the input");
+                    kani::cover!(s > 0, "error after a first token");
+                    finished = true;
+                    core::mem::forget(err);
+                }
+            }
+        }
+        k += 1;
+    }
+    assert!(finished, "lexing ends with an end-of-file token or one located error");
+}
+
+macro_rules! c14_tiling_harness {
+    ($name:ident, $n:expr, $unwind:expr) => {
+        #[kani::proof]
+        #[kani::unwind($unwind)]
+        #[kani::stub(foldhash::seed::gen_per_hasher_seed, ks::stub_gen_per_hasher_seed)]
+        #[kani::stub(foldhash::seed::global::GlobalSeed::init_slow, ks::stub_init_slow)]
+        #[kani::stub(crate::arena::Arena::alloc, crate::arena::Arena::kstub_alloc)]
+        #[kani::stub(crate::arena::Arena::alloc_slice, crate::arena::Arena::kstub_alloc_slice)]
+        #[kani::stub(crate::arena::Arena::alloc_str, crate::arena::Arena::kstub_alloc_str)]
+        fn $name() {
+            let input: [u8; $n] = kani::any();
+            check_tiling(&input);
+        }
+    };
+}
+
+// @harness id=c14_tiling_2 props=C14,C16,C01 tier=quick cap=1500
+// @desc Lexer::next_token repeated to the end on every byte string of length 2: the tokens (whitespace and comments included) tile the input exactly from byte 0 to an end-of-file token at the end, every token is non-empty, and a failure is one error whose span lies inside the input with start <= end; no panic (slice indexing, from_utf8().unwrap(), span assertions) for any bytes
+// @bound all 65 536 two-byte inputs in one query (every pair of token starts, invalid UTF-8 included)
+// @funcs Lexer::next_token, Lexer::lex_operator, Lexer::lex_ident, Lexer::lex_number, Lexer::lex_quoted_string, Lexer::lex_verbatim_string, Lexer::lex_text_block, Lexer::lex_single_line_comment, Lexer::lex_multi_line_comment, Lexer::eat_cont_any_char, Lexer::commit_token, SpanManager::intern_span
+c14_tiling_harness!(c14_tiling_2, 2, 8);
+
+// @harness id=c14_tiling_3 props=C14,C16,C01:thorough tier=quick cap=2400
+// @desc as c14_tiling_2 for every byte string of length 3 (adds |||, 3-byte UTF-8 sequences, two-byte operators followed by another token)
+// @bound all 2^24 three-byte inputs in one query
+// @funcs Lexer::next_token
+c14_tiling_harness!(c14_tiling_3, 3, 9);
+
+// @harness id=c14_tiling_4 props=C14,C16 tier=thorough cap=3600
+// @desc as c14_tiling_2 for every byte string of length 4
+// @bound all 2^32 four-byte inputs in one query
+// @funcs Lexer::next_token
+c14_tiling_harness!(c14_tiling_4, 4, 10);
+
+// @harness id=c14_must_fail props=C14 tier=quick cap=900 expect=fail
+// @desc vacuity twin of the tiling harnesses
+#[kani::proof]
+#[kani::unwind(8)]
+#[kani::stub(foldhash::seed::gen_per_hasher_seed, ks::stub_gen_per_hasher_seed)]
+#[kani::stub(foldhash::seed::global::GlobalSeed::init_slow, ks::stub_init_slow)]
+#[kani::stub(crate::arena::Arena::alloc, crate::arena::Arena::kstub_alloc)]
+#[kani::stub(crate::arena::Arena::alloc_slice, crate::arena::Arena::kstub_alloc_slice)]
+#[kani::stub(crate::arena::Arena::alloc_str, crate::arena::Arena::kstub_alloc_str)]
+fn c14_must_fail() {
+    let input: [u8; 1] = kani::any();
+    check_tiling(&input);
+    assert!(false, "reachability witness");
+}
